@@ -3,6 +3,9 @@
 A *program* is a forest:
     item := ["probe", k] | ["raise", kind] | ["try", [items]]
           | ["block", interp, mode, [items]]          mode in {"with", "deco"}
+          | ["prepare", slot, interp]                 create the context manager now, keep it in a slot
+          | ["enter", slot, mode, [items]]            enter the manager kept in the slot (created earlier, possibly under another
+                                                      interpretation; tapes, partial and base interpretations may be entered again)
 The harness runs it against funsor and against an explicit stack model.
 """
 import itertools
@@ -245,15 +248,32 @@ def run_program(prog, st=None):
                 if interpreter.get_interpretation() is not before or len(stack) != depth:
                     raise Violation("not-unwound-after-exception", f"after try: top={interpreter.get_interpretation()}, expected {before}; depth {len(stack)} vs {depth}")
                 check_top("after try")
-            elif kind == "block":
+            elif kind in ("block", "enter"):
                 run_block(it)
+            elif kind == "prepare":
+                slots[it[1]] = (it[2], make_cm(it[2]))
+
+    slots = {}
 
     def run_block(b):
-        _, name, mode, items = b
+        if b[0] == "enter":
+            _, slot, mode, items = b
+            if slot not in slots:
+                slots[slot] = ("adjoint", make_cm("adjoint"))
+            name, cm = slots[slot]
+            info["reentered"] = info.get("reentered", False) or (slot, "used") in slots
+            slots[(slot, "used")] = True
+            if name == "memoize":
+                del slots[slot]  # a generator-based context manager is single-use
+            info["prepared"] = True
+        else:
+            _, name, mode, items = b
+            cm = None
         before = interpreter.get_interpretation()
         depth = len(stack)
         mdepth = len(model.stack)
-        cm = make_cm(name)
+        if cm is None:
+            cm = make_cm(name)
         entered = model.enter(name)
         if entered is None:
             info["refused"] = True
@@ -335,10 +355,12 @@ def items_strategy(depth, top=True):
         return st.lists(leaf, max_size=2)
     sub = items_strategy(depth - 1, False)
     block = st.tuples(st.just("block"), st.sampled_from(INTERPS), st.sampled_from(["with", "deco"]), sub)
+    prepare = st.tuples(st.just("prepare"), st.integers(0, 1), st.sampled_from(["adjoint", "adjoint", "memoize", "memoize", "partial", "lazy", "normalize"]))
+    enter = st.tuples(st.just("enter"), st.integers(0, 1), st.sampled_from(["with", "with", "deco"]), sub)
     tr = st.tuples(st.just("try"), sub)
     if top:
-        return st.lists(st.one_of(block, block, block, st.tuples(st.just("try"), st.lists(block, min_size=1, max_size=2))), min_size=1, max_size=3)
-    return st.lists(st.one_of(leaf, block, block, block, block, tr), min_size=1, max_size=3)
+        return st.lists(st.one_of(block, block, block, prepare, enter, st.tuples(st.just("try"), st.lists(block, min_size=1, max_size=2))), min_size=1, max_size=4)
+    return st.lists(st.one_of(leaf, block, block, block, prepare, enter, enter, tr), min_size=1, max_size=3)
 
 
 def forests(n):
@@ -398,7 +420,11 @@ class C17(Prop):
             stt.count("with-injected-exception")
         if info["refused"]:
             stt.count("overflow-refused")
-        if (info["maxdepth"] >= 2 and info["partial_nested"]) or info["raised"]:
+        if info.get("prepared"):
+            stt.count("entered-a-prepared-context")
+        if info.get("reentered"):
+            stt.count("re-entered-the-same-context-object")
+        if (info["maxdepth"] >= 2 and info["partial_nested"]) or info["raised"] or info.get("reentered"):
             stt.mark_nontrivial(case_hash(case))
 
     def extra(self, tier, shard, nshards, stt, seed):
